@@ -1,3 +1,4 @@
+\* variant: discover() compares size >= limit: no round above the limit
 SPECIFICATION Spec
 CONSTANTS
   Peers = {"p1", "p2", "p3"}
@@ -14,10 +15,10 @@ CONSTANTS
   MaxApi = 0
   WithGC = TRUE
   AtomicPeers = FALSE
-  SignedWant = FALSE
+  SignedWant = TRUE
   Serialized = FALSE
   DirectAPI = FALSE
-VIEW state
 CHECK_DEADLOCK FALSE
-INVARIANTS HardLimit
-
+VIEW state
+INVARIANTS TypeOK SizeBound
+PROPERTIES RoundOnlyBelowLimit
